@@ -67,18 +67,6 @@ func wfTx(tx *transaction.Transaction) bool {
 			return false
 		}
 	}
-	if !tx.HasWitness() {
-		for _, in := range tx.Inputs {
-			if len(in.Witness) > 0 || len(in.PeginWitness) > 0 || len(in.IssuanceRangeProof) > 0 || len(in.InflationRangeProof) > 0 {
-				return false
-			}
-		}
-		for _, o := range tx.Outputs {
-			if len(o.RangeProof) > 0 || len(o.SurjectionProof) > 0 {
-				return false
-			}
-		}
-	}
 	return true
 }
 
